@@ -250,6 +250,24 @@ pub fn run(cfg: &Cfg) -> Report {
                 Err(p) => ctx.violation(&format!("panic@{}", p.short_loc()), "euclidicity::is_euclidean", json!({"symbol": v.to_text()}), p.to_json(), "a verdict without panicking"),
             }
         }
+        // small corpus symbols: EVERY numbering of the symbol and of its dual (the numbering of the input decides
+        // the numbering of the cover that simplification sees)
+        if m.n <= cfg.tier.pick(4, 5) {
+            for p in gen::all_perms1(m.n) {
+                for (name, v) in [("renumbering", m.renumbered(&p)), ("renumbered dual", m.dual().renumbered(&p))] {
+                    ctx.eval();
+                    match verdict(&v, false) {
+                        Ok((c, r)) => {
+                            ctx.count("corpus_all_numberings_judged");
+                            if c != Class::Yes {
+                                ctx.violation("known-euclidean-symbol-not-recognised", "euclidicity::is_euclidean", json!({"symbol": v.to_text(), "variant_of": m.to_text(), "variant": format!("{} {:?}", name, &p[1..])}), json!({"verdict": r}), "yes for the corpus, its renumberings and duals");
+                            }
+                        }
+                        Err(pn) => ctx.violation(&format!("panic@{}", pn.short_loc()), "euclidicity::is_euclidean", json!({"symbol": v.to_text()}), pn.to_json(), "a verdict without panicking"),
+                    }
+                }
+            }
+        }
         ctx.count("corpus_symbols");
     });
     report.absorb(ctx);
